@@ -83,10 +83,10 @@ CHECKS = {
             'bounded-exhaustive enumeration of input specs x nested input dictionaries on the real Process constructor, '
             'against a reference model of port namespaces',
             'Every InputPort attribute combination and every nested-namespace attribute combination (required, '
-            'valid_type, default plain/callable, validator, dynamic, populate_defaults; nesting depth 3) is built as a '
+            'valid_type, default plain/callable - also on a namespace itself -, validator, dynamic, populate_defaults; nesting depth 3) is built as a '
             'real spec and every nested input dictionary over a small value domain is given to the constructor; whether '
             'it raises, the parsed inputs, raw_inputs, read-only-ness and the caller dictionary are compared with '
-            'pv/refports.py.',
+            'pv/refports.py; the first accepted inputs of every spec are constructed again at the end and must parse the same.',
             'Trusts the reference model (written from the statement and the port docstrings); cases the statement does '
             'not define are outside the alphabet (listed in the evidence assumptions); no random part.', 'DESIGN.md 3 C11'),
     'C12': ('input-enumerator',
@@ -140,7 +140,7 @@ CHECKS = {
             'families as reported in the evidence.', 'DESIGN.md 3 C08'),
     'C16': (SCHED, SCHED_TECH + '; twin executions at quiescent delivery points; exhaustive broadcast-fault enumeration',
             'A process attached to an in-process communicator (plain, and wrapped in LoopCommunicator) receives <=K RPC '
-            'pause/play/kill/status messages and their broadcast variants at every placement between loop callbacks: each '
+            'pause/play/kill/status messages and their broadcast variants (with and without a message text) at every placement between loop callbacks: each '
             'delivered message must become exactly one call of the matching control method with the matching arguments, the '
             'reply must end with what that call returned, status replies equal what the process reported, every transition '
             'is announced once, in order, by the pid, and a terminated process is unroutable. With choice points only at '
